@@ -1,16 +1,67 @@
 (* C13 - Blockstore rebuilds exactly the disseminated block, once, and flags bad ones.
-   PARTIAL: proved for the blockstore model - a reconstructed block is exactly "all slices 0..last,
-   hash = their roots in order, first slice with parent, at most one parent switch and not to itself,
-   all transactions decode, parent in an earlier slot"; a completed block is never announced again or
-   replaced; after the leader was flagged nothing is accepted or announced from dissemination and
-   InvalidBlock is not repeated; conflicting commitments for one slice are equivocation in both orders.
-   That every delivery order / duplication / subset of an honest block's shreds leads to exactly one
-   FirstShred and one Block (and never InvalidBlock), and that every malformed / equivocating shape is
-   flagged once in every arrival order, is decided by the oracle c13_step_ok on the real blockstore's
-   outputs (Oracle/C13.v) and by the model/implementation correspondence; the leader's fast path is
-   compared against the same model.  What a set of shreds decodes to is C11's subject. *)
+
+   PROVED for the blockstore model (Model/Blockstore.v; vocabulary in Model/BlockstoreSpec.v):
+   (a) honest blocks, every delivery order / duplication / subset / interleaving.  For every HONEST BLOCK
+       [hb] (hb_ok: >= 1 slices; each slice has an even non-zero shred size and decodes with decodable
+       transactions; the first slice carries a parent; the parent walk - at most one switch, not to itself -
+       succeeds with a parent in an earlier slot) and EVERY list [l] of honest shreds of it
+       (forallb (honest_shred hb) l: any slice < k, any index < TOTAL_SHREDS, any order, repeats allowed),
+       folded through bs_step true ct slot _ (BDissem _) from sd_empty (bs_dissem_run):
+       - C13_dissem_run_is_spec: the complete output stream (return value and events of every delivery) is the
+         function expected_outs of the delivered list: Duplicate iff the (slice, index) was delivered before or
+         the slice already has DATA_SHREDS distinct indices; FirstShred for the first shred; Block (with return
+         Ok(hash, parent)) for the delivery that makes every slice reach DATA_SHREDS distinct indices; Ok(None)
+         otherwise;
+       - C13_dissem_honest_safe: never a panic, never InvalidBlock, the leader is never flagged, every return
+         is Ok or Err(Duplicate);
+       - C13_dissem_first_shred_once: FirstShred exactly once, at the first delivered shred;
+       - C13_dissem_block_once: the Block events of the run are exactly [Block (slice roots in order) parent]
+         if every slice has >= DATA_SHREDS distinct delivered indices and [] otherwise, and the stored block
+         (bd_completed) is that one / None accordingly  (=> at most once, completeness, right hash + parent);
+       - C13_dissem_no_block_before_ready: outputs of a prefix are a prefix of the outputs, and a prefix that
+         does not yet hold DATA_SHREDS distinct indices of every slice has produced no Block;
+       - C13_dissem_shreds_available: every delivered shred, every shred of a slice that reached DATA_SHREDS,
+         and after completion EVERY (slice, index < TOTAL_SHREDS) is stored as the leader's shred.
+   (b) ARBITRARY shred sequences (no honesty assumption; any shreds, any order), same run:
+       - C13_dissem_never_panics: the blockstore never panics and never returns the panic outcome;
+       - C13_dissem_invalid_once: InvalidBlock is announced at most once, exactly when the leader gets flagged;
+       - C13_dissem_silent_after_flag: once flagged, every further dissemination shred is refused
+         (InvalidShred) without any event and without touching the state: no Block from dissemination
+         afterwards, InvalidBlock not repeated;
+       - C13_dissem_only_valid_blocks: every Block ever announced is well-formed w.r.t. the decoding table
+         (valid_block: roots of slices 0..n-1, all decodable with decodable transactions, first slice with
+         parent, legal parent handover ending in the announced parent, parent in an earlier slot) - malformed
+         blocks are never announced, whatever the shreds and their order;
+       - C13_dissem_equivocation_flagged: two delivered shreds of one slice with different commitments (slice
+         root or last-slice flag) - at any positions, in either order, among any other shreds - get the leader
+         flagged and InvalidBlock announced exactly once (covers a block with a conflicting validly signed slice);
+       - C13_dissem_last_marker_conflict_flagged: likewise for a last-slice marker contradicted by a shred of a
+         later slice or by a last-slice marker on another slice;
+       - C13_dissem_revealed_equivocation_flagged: both with the decidable hypothesis
+         reveals_conflict l || reveals_last_conflict l = true.
+   (c) the leader's own fast path (add_own_slice for the slices of an honest block, in order; bs_ops_run over
+       own_ops hb):
+       - C13_own_path_spec: no panic, not flagged, FirstShred then Block(hash, parent) and nothing else, the
+         stored block is (slice roots in order, the leader's parent), every (slice, index) holds the leader's shred;
+       - C13_own_path_equals_follower: the stored block and every stored shred equal those of a follower that
+         reconstructed the block from ANY sufficient delivery of honest shreds.
+   (d) single steps (as before): a reconstructed block is exactly "all slices 0..last, hash = their roots in
+       order, first slice with parent, at most one parent switch and not to itself, all transactions decode,
+       parent in an earlier slot"; a completed block is never announced again or replaced; after the leader was
+       flagged nothing is accepted or announced from dissemination and InvalidBlock is not repeated;
+       conflicting commitments for one slice are equivocation in both orders.
+
+   ORACLE-ONLY (decided by c13_step_ok on the real blockstore's outputs, Oracle/C13.v, and the
+   model/implementation correspondence): that malformed CONTENT (undecodable data, first slice without
+   parent, a parent switched more than once or to itself, parent not in an earlier slot) is flagged in every
+   arrival order once enough shreds reveal it ("at most once", "nothing afterwards" and "a malformed block is
+   never announced" are proved, (b));
+   own slices added in another order than 0..k-1 or mixed with dissemination shreds; the repair path.
+   What a set of shreds decodes to (content table) is C11's subject; hash = double-Merkle root is checked by
+   the harness with the real DoubleMerkleTree. *)
 From Coq Require Import List NArith Bool.
-From AG Require Import Gen.Params Model.Pool Model.Blockstore Proofs.BlockstoreProofs.
+From AG Require Import Gen.Params Model.Pool Model.Blockstore Model.BlockstoreSpec Proofs.BlockstoreProofs Proofs.BlockstoreOrderProofs
+  Proofs.BlockstoreFlagProofs Proofs.BlockstoreOwnProofs.
 Import ListNotations.
 Open Scope N_scope.
 
@@ -49,3 +100,175 @@ Print Assumptions C13_completed_block_announced_once.
 Print Assumptions C13_flagged_leader_blocks_dissemination.
 Print Assumptions C13_invalid_block_once.
 Print Assumptions C13_conflicting_slices_are_equivocation.
+
+(* ---------- honest blocks: order / duplication / subset independence ---------- *)
+Theorem C13_dissem_run_is_spec : forall slot ct hb l,
+  hb_ok slot ct hb = true -> forallb (honest_shred hb) l = true ->
+  snd (bs_dissem_run ct slot l) = expected_outs ct hb [] l.
+Proof. exact dissem_run_is_spec. Qed.
+
+Theorem C13_dissem_honest_safe : forall slot ct hb l,
+  hb_ok slot ct hb = true -> forallb (honest_shred hb) l = true ->
+  sd_misbehaved (fst (bs_dissem_run ct slot l)) = false /\
+  sd_panicked (fst (bs_dissem_run ct slot l)) = false /\
+  forall r ev, In (r, ev) (snd (bs_dissem_run ct slot l)) ->
+    (r = BRErr EDuplicate \/ exists x, r = BROk x) /\ ~ In BInvalidBlock ev.
+Proof. exact dissem_honest_safe. Qed.
+
+Theorem C13_dissem_first_shred_once : forall slot ct hb s t,
+  hb_ok slot ct hb = true -> forallb (honest_shred hb) (s :: t) = true ->
+  exists out', snd (bs_dissem_run ct slot (s :: t)) = (BROk None, [BFirstShred]) :: out' /\
+               filter is_first_event (out_events out') = [].
+Proof. exact dissem_first_shred_once. Qed.
+
+Theorem C13_dissem_block_once : forall slot ct hb l,
+  hb_ok slot ct hb = true -> forallb (honest_shred hb) l = true ->
+  exists parent, hb_parent ct hb = Some parent /\ fst parent < slot /\
+    filter is_block_event (out_events (snd (bs_dissem_run ct slot l))) =
+      (if block_ready hb l then [BBlock (hb_hash hb) parent] else []) /\
+    bd_completed (sd_dissem (fst (bs_dissem_run ct slot l))) =
+      (if block_ready hb l then Some (hb_hash hb, parent) else None).
+Proof. exact dissem_block_once. Qed.
+
+Theorem C13_dissem_no_block_before_ready : forall slot ct hb l1 l2,
+  hb_ok slot ct hb = true -> forallb (honest_shred hb) (l1 ++ l2) = true -> block_ready hb l1 = false ->
+  firstn (length l1) (snd (bs_dissem_run ct slot (l1 ++ l2))) = snd (bs_dissem_run ct slot l1) /\
+  filter is_block_event (out_events (snd (bs_dissem_run ct slot l1))) = [].
+Proof. exact dissem_no_block_before_ready. Qed.
+
+Theorem C13_dissem_shreds_available : forall slot ct hb l i j,
+  hb_ok slot ct hb = true -> forallb (honest_shred hb) l = true ->
+  i < hb_len hb -> j < TOTAL_SHREDS ->
+  block_ready hb l = true \/ slice_ready l i = true \/ In j (idxs l i) ->
+  alookup j (aget [] i (bd_shreds (sd_dissem (fst (bs_dissem_run ct slot l))))) = Some (hshred hb i j).
+Proof. exact dissem_shreds_available. Qed.
+
+(* non-vacuity: a two-slice block with an optimistic-handover parent switch in slice 1; the shreds arrive
+   interleaved, out of order, with repeats, and a strict subset of them (36 + 32 distinct of 128) suffices,
+   and the Block is announced at the very last delivery (one shred fewer: not ready) *)
+Definition ex_ct : content := [(100, DecOk (Some (3, 77)) true); (101, DecOk (Some (4, 88)) true)].
+Definition ex_hb : hblock := [(100, 64); (101, 32)].
+Definition ex_shreds : list bshred :=
+  map (hshred ex_hb 1) (rev (seqN 30 34)) ++ map (hshred ex_hb 0) (seqN 0 20)
+  ++ map (hshred ex_hb 1) (seqN 28 5) ++ map (hshred ex_hb 0) (seqN 10 22).
+Example C13_nonvacuous :
+  hb_ok 5 ex_ct ex_hb = true /\ forallb (honest_shred ex_hb) ex_shreds = true /\
+  block_ready ex_hb ex_shreds = true /\ block_ready ex_hb (removelast ex_shreds) = false /\
+  hb_parent ex_ct ex_hb = Some (4, 88) /\
+  filter (fun e => negb (is_first_event e)) (out_events (snd (bs_dissem_run ex_ct 5 ex_shreds)))
+    = [BBlock [100; 101] (4, 88)].
+Proof. vm_compute. repeat split; reflexivity. Qed.
+
+(* ---------- arbitrary shred sequences ---------- *)
+Theorem C13_dissem_never_panics : forall c slot l,
+  sd_panicked (fst (bs_dissem_run c slot l)) = false /\
+  forall r ev, In (r, ev) (snd (bs_dissem_run c slot l)) -> r <> BRPanic.
+Proof. exact dissem_never_panics. Qed.
+
+Theorem C13_dissem_invalid_once : forall c slot l,
+  filter is_invalid_event (out_events (snd (bs_dissem_run c slot l))) =
+  if sd_misbehaved (fst (bs_dissem_run c slot l)) then [BInvalidBlock] else [].
+Proof. exact dissem_invalid_once. Qed.
+
+Theorem C13_dissem_silent_after_flag : forall c slot l1 l2,
+  sd_misbehaved (fst (bs_dissem_run c slot l1)) = true ->
+  fst (bs_dissem_run c slot (l1 ++ l2)) = fst (bs_dissem_run c slot l1) /\
+  exists out2, snd (bs_dissem_run c slot (l1 ++ l2)) = snd (bs_dissem_run c slot l1) ++ out2 /\
+               length out2 = length l2 /\
+               forall r ev, In (r, ev) out2 -> r = BRErr EInvalidShred /\ ev = [].
+Proof. exact dissem_silent_after_flag. Qed.
+
+Theorem C13_dissem_equivocation_flagged : forall c slot l s1 s2,
+  In s1 l -> In s2 l -> b_slice s1 = b_slice s2 ->
+  commit_eqb (commitment_of s1) (commitment_of s2) = false ->
+  sd_misbehaved (fst (bs_dissem_run c slot l)) = true /\
+  filter is_invalid_event (out_events (snd (bs_dissem_run c slot l))) = [BInvalidBlock].
+Proof. exact dissem_equivocation_flagged. Qed.
+
+Theorem C13_dissem_last_marker_conflict_flagged : forall c slot l s1 s2,
+  In s1 l -> In s2 l -> b_last s1 = true ->
+  b_slice s1 < b_slice s2 \/ (b_last s2 = true /\ b_slice s1 <> b_slice s2) ->
+  sd_misbehaved (fst (bs_dissem_run c slot l)) = true /\
+  filter is_invalid_event (out_events (snd (bs_dissem_run c slot l))) = [BInvalidBlock].
+Proof. exact dissem_last_marker_conflict_flagged. Qed.
+
+Theorem C13_dissem_revealed_equivocation_flagged : forall c slot l,
+  reveals_conflict l || reveals_last_conflict l = true ->
+  sd_misbehaved (fst (bs_dissem_run c slot l)) = true /\
+  filter is_invalid_event (out_events (snd (bs_dissem_run c slot l))) = [BInvalidBlock].
+Proof. exact dissem_revealed_equivocation_flagged. Qed.
+
+Theorem C13_dissem_only_valid_blocks : forall ct slot l r ev h p,
+  In (r, ev) (snd (bs_dissem_run ct slot l)) -> In (BBlock h p) ev -> valid_block ct slot h p.
+Proof. exact dissem_only_valid_blocks. Qed.
+
+Example C13_nonvacuous_valid_block : valid_block ex_ct 5 [100; 101] (4, 88).
+Proof.
+  exists [(0, mkRS 100 (Some (3, 77)) true); (1, mkRS 101 (Some (4, 88)) true)], (mkRS 100 (Some (3, 77)) true), (3, 77).
+  repeat split; try reflexivity.
+  intros i r [H|[H|[]]]; injection H as <- <-; reflexivity.
+Qed.
+
+(* non-vacuity: the honest example with ONE conflicting shred of slice 1 (another root) slipped in at
+   position 40 (before the block is complete), resp. appended at the end (after the Block was announced);
+   and a shred of slice 2 after the last-slice marker of slice 1 *)
+Definition ex_conflict : bshred := mkBS 1 true 999 7 true 32.
+Example C13_nonvacuous_equivocation :
+  let l1 := firstn 40 ex_shreds ++ [ex_conflict] ++ skipn 40 ex_shreds in
+  let l2 := ex_shreds ++ [ex_conflict] in
+  let l3 := ex_shreds ++ [mkBS 2 false 102 0 true 32] in
+  reveals_conflict l1 = true /\ reveals_conflict l2 = true /\ reveals_last_conflict l3 = true /\
+  reveals_conflict ex_shreds || reveals_last_conflict ex_shreds = false /\
+  filter (fun e => negb (is_first_event e)) (out_events (snd (bs_dissem_run ex_ct 5 l1))) = [BInvalidBlock] /\
+  filter (fun e => negb (is_first_event e)) (out_events (snd (bs_dissem_run ex_ct 5 l2)))
+    = [BBlock [100; 101] (4, 88); BInvalidBlock] /\
+  filter (fun e => negb (is_first_event e)) (out_events (snd (bs_dissem_run ex_ct 5 l3)))
+    = [BBlock [100; 101] (4, 88); BInvalidBlock].
+Proof. vm_compute. repeat split; reflexivity. Qed.
+
+(* ---------- the leader's own fast path ---------- *)
+Theorem C13_own_path_spec : forall slot ct hb, hb_ok slot ct hb = true ->
+  exists parent, hb_parent ct hb = Some parent /\
+    sd_panicked (fst (bs_ops_run ct slot (own_ops hb))) = false /\
+    sd_misbehaved (fst (bs_ops_run ct slot (own_ops hb))) = false /\
+    bd_completed (sd_dissem (fst (bs_ops_run ct slot (own_ops hb)))) = Some (hb_hash hb, parent) /\
+    out_events (snd (bs_ops_run ct slot (own_ops hb))) = [BFirstShred; BBlock (hb_hash hb) parent] /\
+    (forall r ev, In (r, ev) (snd (bs_ops_run ct slot (own_ops hb))) -> exists x, r = BROk x) /\
+    (forall i j, i < hb_len hb -> j < TOTAL_SHREDS ->
+       alookup j (aget [] i (bd_shreds (sd_dissem (fst (bs_ops_run ct slot (own_ops hb)))))) = Some (hshred hb i j)).
+Proof. exact own_path_spec. Qed.
+
+Theorem C13_own_path_equals_follower : forall slot ct hb l,
+  hb_ok slot ct hb = true -> forallb (honest_shred hb) l = true -> block_ready hb l = true ->
+  bd_completed (sd_dissem (fst (bs_ops_run ct slot (own_ops hb)))) =
+    bd_completed (sd_dissem (fst (bs_dissem_run ct slot l))) /\
+  forall i j, i < hb_len hb -> j < TOTAL_SHREDS ->
+    alookup j (aget [] i (bd_shreds (sd_dissem (fst (bs_ops_run ct slot (own_ops hb)))))) =
+    alookup j (aget [] i (bd_shreds (sd_dissem (fst (bs_dissem_run ct slot l))))).
+Proof. exact own_path_equals_follower. Qed.
+
+Example C13_nonvacuous_own_path :
+  out_events (snd (bs_ops_run ex_ct 5 (own_ops ex_hb))) = [BFirstShred; BBlock [100; 101] (4, 88)] /\
+  bd_completed (sd_dissem (fst (bs_ops_run ex_ct 5 (own_ops ex_hb)))) =
+  bd_completed (sd_dissem (fst (bs_dissem_run ex_ct 5 ex_shreds))).
+Proof. vm_compute. split; reflexivity. Qed.
+
+Print Assumptions C13_dissem_run_is_spec.
+Print Assumptions C13_dissem_honest_safe.
+Print Assumptions C13_dissem_first_shred_once.
+Print Assumptions C13_dissem_block_once.
+Print Assumptions C13_dissem_no_block_before_ready.
+Print Assumptions C13_dissem_shreds_available.
+Print Assumptions C13_nonvacuous.
+Print Assumptions C13_dissem_never_panics.
+Print Assumptions C13_dissem_invalid_once.
+Print Assumptions C13_dissem_silent_after_flag.
+Print Assumptions C13_dissem_equivocation_flagged.
+Print Assumptions C13_dissem_last_marker_conflict_flagged.
+Print Assumptions C13_dissem_revealed_equivocation_flagged.
+Print Assumptions C13_nonvacuous_equivocation.
+Print Assumptions C13_own_path_spec.
+Print Assumptions C13_own_path_equals_follower.
+Print Assumptions C13_nonvacuous_own_path.
+Print Assumptions C13_dissem_only_valid_blocks.
+Print Assumptions C13_nonvacuous_valid_block.
